@@ -34,7 +34,7 @@ class C10(Property):
     title = "The scheduler never over-allocates a location"
     lean_targets = ["SFV.Props.C10", "SFV.Model.SchedProto"]
     props_files = ["SFV/Props/C10.lean"]
-    drivers = ["Drivers/C10.lean", "Drivers/C10Proto.lean"]
+    drivers = ["Drivers/C10.lean", "Drivers/C10Hyp.lean", "Drivers/C10Proto.lean"]
     translators = [schedguards.generate]
     rule = SCHED_RULE + (" Protocol monitor: real workflows with injected failures and recoveries (pipelines, scatter, diamond, loop; soft / "
                          "fail-stop failures in the schedule, transfer and execute phases, exhausted retries, no failure manager) run on a "
